@@ -62,8 +62,15 @@ Copy(ev) ==
 
 Parse(ev) ==
   LET s == ev.shape
-      inRange == ev.mag >= -300 /\ ev.mag <= 299
-      bound13 == IF s.sig > 7 THEN 1 ELSE 10000000                \* 1e-13 resp. 1e-6, in units of 1e-13
+      \* prec = "float": a build that stores floating-point numbers in single precision
+      \* (ARDUINOJSON_USE_DOUBLE=0): the range is the float's and only the 1e-6 bound can apply
+      dbl == ev.prec = "double"
+      lo == IF dbl THEN -300 ELSE -37
+      hi == IF dbl THEN 299 ELSE 37
+      inRange == ev.mag >= lo /\ ev.mag <= hi
+      \* 1e-13 resp. 1e-6, in units of 1e-13; single precision: the property states no accuracy for that
+      \* build (single-precision arithmetic in the parser reaches 1.1e-6): 1e-5 only rejects gross errors
+      bound13 == IF ~dbl THEN 100000000 ELSE IF s.sig > 7 THEN 1 ELSE 10000000
       intExact == s.isint /\ (IF s.neg THEN s.fitsi ELSE s.fitsu)
   IN
   /\ Require(ev.code = "Ok", "a literal of the number grammar was rejected")
@@ -78,8 +85,8 @@ Parse(ev) ==
      THEN /\ Require(ev.cls \in {"finite", "int"}, "a literal of ordinary magnitude did not parse to a finite number")
           /\ Require(ev.err13 <= bound13, "parsed value outside the bound (1e-6, or 1e-13 with more than seven significant digits)")
           /\ Require(ev.signok, "sign lost")
-     ELSE IF ev.mag > 299
-     \* outside [1e-300, 1e300]: infinity resp. zero, or still a finite value of the RIGHT magnitude
+     ELSE IF ev.mag > hi
+     \* outside [1e-300, 1e300] (single precision: [1e-37, 1e38]): infinity resp. zero, or still a finite value of the RIGHT magnitude
      \* (subnormal results carry few bits: the decimal exponent must be right, give or take one)
      THEN Require(ev.cls = "inf" \/ (ev.cls = "finite" /\ ev.gotmag >= ev.mag - 1 /\ ev.gotmag <= ev.mag + 1),
                   "a huge literal parsed to a finite value of the wrong magnitude")
@@ -104,7 +111,8 @@ Next ==
                  [] ev.e = "sweep" -> (IF Focus = "C13" THEN Sweep(ev) ELSE TRUE)
                  [] ev.e = "sweepend" -> (IF Focus = "C13" THEN SweepEnd(ev) ELSE TRUE)
                  [] ev.e = "copy" -> (IF Focus = "C13" THEN Copy(ev) ELSE TRUE)
-                 [] ev.e = "parse" -> (IF Focus = "C12" THEN Parse(ev) ELSE TRUE)
+                 \* C13: "strings holding a number convert by the same rules whatever their length"
+                 [] ev.e = "parse" -> (IF Focus = "C12" \/ (Focus = "C13" /\ ev.via = "string") THEN Parse(ev) ELSE TRUE)
                  [] ev.e = "frun" -> (IF Focus = "C12" THEN FRun(ev) ELSE TRUE)
                  [] ev.e = "dprint" -> (IF Focus = "C12" THEN DPrint(ev) ELSE TRUE)
                  [] ev.e = "fsummary" -> TRUE
